@@ -101,6 +101,11 @@ func runC15(p *Prog, r *Report) {
 	c15R4(p, r)
 	c15R5(p, r)
 	c15R6(p, r)
+	const r7 = "C15-R7"
+	r.Rule(r7, "lock balance in package netio: the deadline mutex and the write-serialising mutex of the pipe are locked only when not held by the function, and released at every exit (here: by the deferred Unlock that follows each Lock)")
+	nb := lockBalance(p, r, r7, "netio", nil)
+	r.Count("lock_operations_checked", nb)
+	r.Floor(r7, 3)
 }
 
 func c15R1(p *Prog, r *Report) {
